@@ -80,7 +80,7 @@ def check(src, rep):
             _check(src, rep)
         except Undecided as e:
             # the field-level analysis (E-BITLIN on the class's own fields) does not apply to this representation: decide through the public API
-            if not _api_route(src, rep, str(e)):
+            if "other state" in str(e) or not _api_route(src, rep, str(e)):
                 raise
     except TableWrong as e:
         rep.violation("O1", f"{MOD}.{CLS}", f"table {e}", "the look-up table is not the RFC 1662 FCS-16 table at the point where it is read (wrong entries, or not yet built when the "
@@ -291,6 +291,11 @@ def _check(src, rep):
         table_wrong = True
         cases = []
     except Top as e:
+        if "condition on other state" in str(e):
+            rep.violation("O2", f"{MOD}.{CLS}.update", "other-state", f"update() decides what to do from state of the object other than the register and the octet ({str(e).split(':', 1)[-1].strip()}, which "
+                          "changes between calls): the register after an octet depends on the history, not only on the octets fed", file, upd.node.lineno)
+            cases = []
+            raise Undecided(f"update() left the affine domain: {e}")
         raise Undecided(f"update() left the affine domain: {e}")
     ref = ref_crc_reflected_step(r16, b8, POLY)
     bad2 = bad3 = 0
